@@ -572,6 +572,29 @@ inline std::string self_test() {
             memcpy(key, mic, 8);
         }
     }
+    // TKIP key mixing test vectors (802.11-2012 M.6.2: vectors 1, 2, 3 and 4; 3 and 4 have IV32 != 0)
+    {
+        struct V { const char* tk; const char* ta; uint32_t iv32; uint16_t iv16; uint16_t p1k[5]; const char* seed; };
+        static const V vs[] = {
+            {"000102030405060708090a0b0c0d0e0f", "102233445566", 0x00000000u, 0x0000,
+             {0x3DD2, 0x016E, 0x76F4, 0x8697, 0xB2E8}, "00200033ea8d2f60ca6d1374234a660b"},
+            {"000102030405060708090a0b0c0d0e0f", "102233445566", 0x00000000u, 0x0001,
+             {0x3DD2, 0x016E, 0x76F4, 0x8697, 0xB2E8}, "00200190ffdc314389a9d9d074fd20aa"},
+            {"63893b250840b8ae0bd0fa7e61d2783e", "64f2eaeddc25", 0x20DCFD43u, 0xFFFF,
+             {0x7C67, 0x49D7, 0x9724, 0xB5E9, 0xB4F1}, "ff7fff93810fc6e58f5dd326251544ce"},
+            {"63893b250840b8ae0bd0fa7e61d2783e", "64f2eaeddc25", 0x20DCFD44u, 0x0000,
+             {0x5A5D, 0x73A8, 0xA859, 0x2EC1, 0xDC8B}, "002000498ca471fcfbfaa16e3610f005"},
+        };
+        for (size_t i = 0; i < sizeof(vs) / sizeof(vs[0]); ++i) {
+            Bytes tk = from_hex(vs[i].tk), ta = from_hex(vs[i].ta);
+            uint16_t p1k[5];
+            uint8_t seed[16];
+            tkip_phase1(tk.data(), ta.data(), vs[i].iv32, p1k);
+            tkip_phase2(tk.data(), p1k, vs[i].iv16, seed);
+            for (int k = 0; k < 5; ++k) if (p1k[k] != vs[i].p1k[k]) return "tkip-phase1";
+            if (!hex_eq(seed, 16, vs[i].seed)) return "tkip-phase2";
+        }
+    }
     // PBKDF2 (802.11-2012 M.4.3 test vector 1)
     {
         Bytes pmk = pmk_from_passphrase("password", "IEEE");
